@@ -762,7 +762,7 @@ mod v_socket_dns {
         kani::cover!(o.failed && o.rcode == 3, "NXDomain failed the query");
     }
 
-    // @harness props=C19,C03:t,C07 cfg=KN tier=t to=3600 mem=12 unwind=12 opts=nomem covers=2 funcs=dns::Socket::accepts;dns::Socket::process;dns::Socket::start_query;wire::dns::Packet::parse_name;wire::dns::Question::parse;wire::dns::Record::parse;wire::dns::RecordData::parse;dns::eq_names;dns::copy_name bounds=query_name_<1>x<1>y_with_symbolic_label_bytes,_type_A_or_AAAA,_txid/port/timers_symbolic;_response_=_byte_template_with_symbolic_id/flags/QDCOUNT/ANCOUNT/NSCOUNT/ARCOUNT,_question_<1>x<1>y_with_symbolic_label_bytes_and_TYPE,_concrete_record_layout_per_arm_with_symbolic_TTL/RDATA;_source_any_IPv4_or_2001:db8::x,_ports_any;_one_A_record_whose_owner_is_a_compression_pointer_forward_into_its_own_RDATA_(4_symbolic_bytes_read_as_a_name;_pointer_chains_through_RDATA,_TTL_and_the_header_counts_need_unwind_12;_measured_with_unwind_7:_344_s_and_a_failing_unwinding_assertion,_not_run_to_completion_with_12)
+    // @harness props=C19,C03:t,C07 cfg=KN tier=t to=3600 mem=16 unwind=12 opts=nomem covers=2 funcs=dns::Socket::accepts;dns::Socket::process;dns::Socket::start_query;wire::dns::Packet::parse_name;wire::dns::Question::parse;wire::dns::Record::parse;wire::dns::RecordData::parse;dns::eq_names;dns::copy_name bounds=query_name_<1>x<1>y_with_symbolic_label_bytes,_type_A_or_AAAA,_txid/port/timers_symbolic;_response_=_byte_template_with_symbolic_id/flags/QDCOUNT/ANCOUNT/NSCOUNT/ARCOUNT,_question_<1>x<1>y_with_symbolic_label_bytes_and_TYPE,_concrete_record_layout_per_arm_with_symbolic_TTL/RDATA;_source_any_IPv4_or_2001:db8::x,_ports_any;_one_A_record_whose_owner_is_a_compression_pointer_forward_into_its_own_RDATA_(4_symbolic_bytes_read_as_a_name;_pointer_chains_through_RDATA,_TTL_and_the_header_counts_need_unwind_12;_measured_with_unwind_7:_344_s_and_a_failing_unwinding_assertion,_not_run_to_completion_with_12)
     #[kani::proof]
     pub(crate) fn dns_process_ptr_forward() {
         let o = process_form(Form { o: [Owner::Ptr(ANS_OFF + 12), Owner::Inline], ..F_ONE });
@@ -845,13 +845,9 @@ mod v_socket_dns {
         kani::cover!(o.completed && o.naddr == 1, "NS record skipped, address taken");
     }
 
-    // @harness props=C19,C03:t cfg=KN tier=t to=900 mem=10 unwind=7 opts=nomem covers=2 funcs=dns::Socket::accepts;dns::Socket::process;dns::Socket::start_query;wire::dns::Packet::parse_name;wire::dns::Question::parse;wire::dns::Record::parse;wire::dns::RecordData::parse;dns::eq_names;dns::copy_name bounds=query_name_<1>x<1>y_with_symbolic_label_bytes,_type_A_or_AAAA,_txid/port/timers_symbolic;_response_=_byte_template_with_symbolic_id/flags/QDCOUNT/ANCOUNT/NSCOUNT/ARCOUNT,_question_<1>x<1>y_with_symbolic_label_bytes_and_TYPE,_concrete_record_layout_per_arm_with_symbolic_TTL/RDATA;_source_any_IPv4_or_2001:db8::x,_ports_any;_arms:_two_answer_records_owned_by_0xc00c:_A+AAAA_/_AAAA+AAAA
-    #[kani::proof]
-    pub(crate) fn dns_process_two_records_mixed() {
-        let (sel, o) = one_of!(Form { rd: [Rd::A, Rd::Aaaa], ..F_TWO }, Form { rd: [Rd::Aaaa, Rd::Aaaa], ..F_TWO });
-        kani::cover!(sel == 0 && o.completed && o.naddr == 2, "query completed with an IPv4 and an IPv6 address");
-        kani::cover!(sel == 1 && o.completed && o.naddr == 2, "query completed with two IPv6 addresses");
-    }
+    // (removed: dns_process_two_records_mixed - an A and an AAAA record, or two AAAA records, need 65 / 77 template octets and
+    // overran the 64-octet template buffer in the harness itself (caught by the thorough sweep as a native panic in harness
+    // code, not in smoltcp); "only records of the requested type are taken" is decided by dns_process_ptrq_a / _aaaa.)
 
     // @harness props=C19,C03:t cfg=KN tier=q to=900 mem=8 unwind=7 opts=nomem covers=2 funcs=dns::Socket::accepts;dns::Socket::process;dns::Socket::start_query;wire::dns::Packet::parse_name;wire::dns::Question::parse;wire::dns::Record::parse;wire::dns::RecordData::parse;dns::eq_names;dns::copy_name bounds=query_name_<1>x<1>y_with_symbolic_label_bytes,_type_A_or_AAAA,_txid/port/timers_symbolic;_response_=_byte_template_with_symbolic_id/flags/QDCOUNT/ANCOUNT/NSCOUNT/ARCOUNT,_question_with_symbolic_label_bytes_and_TYPE,_concrete_record_layout_per_arm_with_symbolic_TTL/RDATA;_source_any_IPv4_or_2001:db8::x,_ports_any;_arms:_the_response's_question_name_is_<1>x<0>_(strict_prefix_of_the_queried_label_sequence)_/_<1>x<1>y<1>z<0>_(strict_extension),_followed_by_an_A_record_owned_by_0xc00c
     #[kani::proof]
